@@ -49,6 +49,8 @@ class Direction:
         self.sink = None  # callable(bytes) at the receiving end
         self.hits = []  # (ordinal, fate kind, frame kind)
         self.late = []  # [remaining units, data] copies waiting to be delivered late
+        self._batch = None
+        self._batch_when = 0.0
 
     def write(self, data: bytes):
         line = self.line
@@ -96,7 +98,16 @@ class Direction:
             line.hook(g, self.name, when)
         for d in out:
             self.last_delivery = when
-            loop.call_at(when, self._deliver, d)
+            if line.merge_reads and self.name == "n2h":
+                # frames that reach the receiver back to back arrive in ONE read
+                if self._batch is not None and when - self._batch_when < 5e-6:
+                    self._batch.append(d)
+                    self._batch_when = when
+                else:
+                    self._batch, self._batch_when = [d], when
+                    loop.call_at(when + 4e-6, self._flush_batch, self._batch)
+            else:
+                loop.call_at(when, self._deliver, d)
             when += 1e-6
 
     def _deliver(self, data):
@@ -126,6 +137,11 @@ class Direction:
                 self.last_delivery = when
                 loop.call_at(when, self._deliver_late, item[1])
 
+    def _flush_batch(self, batch):
+        if self._batch is batch:
+            self._batch = None
+        self._deliver(b"".join(batch))
+
     def _deliver_late(self, data):
         line = self.line
         loop = line.loop
@@ -150,6 +166,7 @@ class Line:
         self.log = []
         self.hook = None     # callable(global ordinal, direction name, delivery time or None) at write time
         self.dead = False    # True: everything written from now on is lost (silent peer / cut line)
+        self.merge_reads = False  # True: units of the n2h direction delivered at the same instant arrive as one chunk
         self.h2n = Direction(self, "h2n", fates_h2n)
         self.n2h = Direction(self, "n2h", fates_n2h)
 
